@@ -123,6 +123,9 @@ def observe_many_default_limits(texts):
         sys.setrecursionlimit(old)
 
 
+EAGER_UNROLL_TEXTS = ['r = { "x"{4294967295} }', 'r = { "x"{,4294967295} }', 'r = { "x"{4294967295,} }', 'r = { "x"{1,4294967295} }']
+
+
 def stress_texts() -> list[str]:
     """Long chains, deep nesting, huge numbers, lone surrogates: legal or illegal, loading must stay total (C11)."""
     out = []
@@ -147,6 +150,7 @@ def stress_texts() -> list[str]:
     for b in big:
         for form in ('"a"{%s}', '"a"{%s,}', '"a"{,%s}', '"a"{1,%s}', '"a"{%s,%s}', "PEEK[%s..]", "PEEK[..%s]", "PEEK[-%s..]", "PEEK[..-%s]"):
             out.append("r = { " + form.replace("%s", b) + " }")
+    out.extend(EAGER_UNROLL_TEXTS)  # legal counts (u32) that cannot be unrolled in memory: recorded finding eager-unroll-memory
     sur = "\ud800"
     for body in ('"%s"', '"\\x%sa"', '"\\u{%s41}"', "'%s'..'z'", '^"%s"', 'PUSH_LITERAL("%s")', "%s", '"a" ~ %s', "#%s = a", '"a" // %s', '"a" /* %s */', '"a"{%s}', "PEEK[%s..]"):
         out.append("r = { " + body.replace("%s", sur) + " }")
